@@ -164,6 +164,10 @@ func (u *Unit) ensureSpecFunc(name string) *SpecFunc {
 			as = append(as, "p."+p.Name)
 		}
 		u.c.emit(fmt.Sprintf("(declare-fun %s (%s) %s)", "sf."+name, strings.Join(ss, " "), rs.Name))
+		if len(as) == 0 {
+			u.c.emit(fmt.Sprintf("(assert (= sf.%s %s))", name, body.S))
+			return sf
+		}
 		appl := "(sf." + name + " " + strings.Join(as, " ") + ")"
 		u.c.emit(fmt.Sprintf("(assert (forall (%s) (! (= %s %s) :pattern (%s))))", strings.Join(ps, " "), appl, body.S, appl))
 		return sf
@@ -627,9 +631,10 @@ func (u *Unit) ensureStrOrder() {
 		return
 	}
 	c.declared["gs.order"] = true
-	c.emit("(assert (forall ((a Str)) (not (gs.lt a a))))")
-	c.emit("(assert (forall ((a Str) (b Str) (c Str)) (=> (and (gs.lt a b) (gs.lt b c)) (gs.lt a c))))")
-	c.emit("(assert (forall ((a Str) (b Str)) (or (gs.lt a b) (gs.lt b a) (= a b))))")
+	c.emit("(assert (forall ((a Str)) (! (not (gs.lt a a)) :pattern ((gs.lt a a)))))")
+	c.emit("(assert (forall ((a Str) (b Str) (c Str)) (! (=> (and (gs.lt a b) (gs.lt b c)) (gs.lt a c)) :pattern ((gs.lt a b) (gs.lt b c)))))")
+	c.emit("(assert (forall ((a Str) (b Str)) (! (or (gs.lt a b) (gs.lt b a) (= a b)) :pattern ((gs.lt a b)))))")
+	c.emit("(assert (forall ((a Str) (b Str)) (! (not (and (gs.lt a b) (gs.lt b a))) :pattern ((gs.lt a b)))))")
 }
 
 func (u *Unit) seqEq(a, b Term) Term {
